@@ -7,7 +7,8 @@ import FqModel.Nav
       dump  : pre-order, one token per node `K,isRoot,hasFormat,hex(name),Index,nkids` (K = S|A|L), the real
               shape of the decode tree walked in Go;
       node obs (pre-order, the node's id is its position):
-              `<topath> <getpath> <parent> <root> <buffer_root> <format_root> <parents> <tupV> <tupG> <hV> <hG>`
+              `<topath> <getpath> <parent> <root> <buffer_root> <format_root> <parents> <tupV> <tupG> <hV> <hG> <keys>`
+              (keys = `n` for a leaf, else `<keys as path items>=<id of .[key] per key>=<length>`)
               where ids are pre-order numbers, `null`, `err`, `x` (not a decode value), `?` (a decode value that
               is not in the tree); tup = `_start._stop.hex(_name)._index|n`; h = hash of `tovalue|tojson` or `-`.
       verdict: the property predicate evaluated on fq's answers against the dumped shape (identity of
@@ -122,6 +123,12 @@ def parseTup (w : String) : Option Tup :=
     pure { start := a, stop := b, name := nm, index := ix }
   | _ => none
 
+def showItem : PItem → String
+  | .inl s => "s" ++ (if s.isEmpty then "" else hexOfBytes s.toUTF8.toList)
+  | .inr i => "i" ++ toString i
+
+def showPath (p : Path) : String := if p.isEmpty then "-" else ",".intercalate (p.map showItem)
+
 /-! ### the tree case -/
 
 structure NodeObs where
@@ -136,10 +143,11 @@ structure NodeObs where
   tupG : String
   hV : String
   hG : String
+  keys : String
 
 def parseNodeObs (s : String) : Option NodeObs :=
   match words s with
-  | [a, b, c, d, e, f, g, h, i, j, k] => some ⟨a, b, c, d, e, f, g, h, i, j, k⟩
+  | [a, b, c, d, e, f, g, h, i, j, k, l] => some ⟨a, b, c, d, e, f, g, h, i, j, k, l⟩
   | _ => none
 
 /-- the pointer itself and all its ancestors, nearest first -/
@@ -210,6 +218,46 @@ def checkNode (t : Tree) (ptrs : Array Ptr) (id : Nat) (n : Ptr) (o : NodeObs) :
   if ops.length != expParents.length || !((ops.zip expParents).all (fun (a, b) => obsIs ptrs a (some b))) then
     some s!"P: node {id}: parents is {o.parents}, the chain of parents up to the root has {expParents.length} elements"
   else
+  -- P4: keys ↔ children. `keys` has no duplicates, as many elements as there are children (= length), and the
+  -- compound indexed with each key gives a child of this node that carries that name / sits at that position
+  let p4 : Option String :=
+    if o.keys == "n" then
+      (if v.info.kind == .leaf then none else some s!"P: node {id}: keys/length failed on a compound")
+    else match o.keys.splitOn "=" with
+      | [ks, ids, len] =>
+        match parsePathTok ks, (if ids == "-" then some [] else (ids.splitOn ",").mapM parseObsId), len.toNat? with
+        | some keys, some kobs, some ln =>
+          if v.info.kind == .leaf then some s!"P: node {id}: a leaf has keys"
+          else if ln != v.kids.length then some s!"P: node {id}: length {ln} but {v.kids.length} children"
+          else if keys.length != v.kids.length || kobs.length != keys.length then
+            some s!"P: node {id}: {keys.length} keys for {v.kids.length} children"
+          else if !(keys.eraseDups.length == keys.length) then
+            some s!"P: node {id}: keys has duplicates ({ks}) — two children share a name"
+          else
+            let bad := (keys.zip kobs).find? (fun (key, ob) =>
+              match ob with
+              | .node cid =>
+                match ptrs[cid]? with
+                | some (ck :: cup) =>
+                  if cup != n then true
+                  else match deref t (ck :: cup), key with
+                    | some c, .inl name => !(v.info.kind == .struct && c.info.name == name)
+                    | some _, .inr i => !(v.info.kind == .array && i == (ck : Int))
+                    | none, _ => true
+                | _ => true
+              | _ => true)
+            match bad with
+            | some (key, ob) => some s!"P: node {id}: indexing it with its key {showItem key} gives {repr ob}, not a child under that key"
+            | none =>
+              -- model: one getpath step per key
+              match (keys.zip kobs).find? (fun (key, ob) => !(obsIs ptrs ob (step t n key))) with
+              | some (key, _) => some s!"M: node {id}: model step for key {showItem key} differs"
+              | none =>
+                if v.info.kind == .array && keys != childKeys v then some s!"M: node {id}: array keys differ from 0..n-1"
+                else none
+        | _, _, _ => some s!"B: node {id}: bad keys field {o.keys}"
+      | _ => some s!"P: node {id}: keys failed ({o.keys})"
+  if let some e := p4 then some e else
   -- model = implementation
   if pathOf t n != path then some s!"M: node {id}: model pathOf differs from topath {o.path}"
   else if resolve t path != some n then some s!"M: node {id}: model resolve of topath is {showOptPtr ptrs (resolve t path)}"
@@ -273,12 +321,6 @@ def treeVerdict (op obs : String) : String :=
   | _, _ => "BADOP split"
 
 /-! ### the expr case -/
-
-def showItem : PItem → String
-  | .inl s => "s" ++ (if s.isEmpty then "" else hexOfBytes s.toUTF8.toList)
-  | .inr i => "i" ++ toString i
-
-def showPath (p : Path) : String := if p.isEmpty then "-" else ",".intercalate (p.map showItem)
 
 def exprVerdict (ptok obs : String) : String :=
   match parsePathTok ptok with
